@@ -12,13 +12,17 @@ I64 = ("int", 8, True)
 U32 = ("int", 4, False)
 I16 = ("int", 2, True)
 BOOL = ("bool",)
+CHAR = ("char",)
+FN2 = ("fn", (I32, I32), I32)       # (x: i32, y: i32) -> i32
 INTS = [I32, I32, I32, U8, I64, U32, I16]
 REC_P = ("rec", "P", (("a", I32), ("b", U8)))
 REC_Q = ("rec", "Q", (("p", REC_P), ("k", I64), ("f", BOOL)))
 OPT_I32 = ("opt", I32)
 OPT_P = ("opt", REC_P)
 ENUM_E = ("enum", "E", (("A", I32), ("B", U8), ("C", None), ("D", REC_P)))
-SUMS = [OPT_I32, OPT_I32, OPT_P, ENUM_E]
+EU_BI = ("eu", BOOL, I32)          # bool!i32
+EU_PL = ("eu", REC_P, I64)         # P!i64
+SUMS = [OPT_I32, OPT_I32, OPT_P, ENUM_E, EU_BI, EU_BI, EU_PL]
 
 
 def tyname(t):
@@ -26,6 +30,10 @@ def tyname(t):
         return ("i" if t[2] else "u") + str(8 * t[1])
     if t[0] == "bool":
         return "bool"
+    if t[0] == "char":
+        return "char"
+    if t[0] == "fn":
+        return "(%s) -> %s" % (", ".join("%s: %s" % ("xyzw"[k], tyname(a)) for k, a in enumerate(t[1])), tyname(t[2]))
     if t[0] == "arr":
         return "[%d]%s" % (t[1], tyname(t[2]))
     if t[0] == "rec":
@@ -34,6 +42,8 @@ def tyname(t):
         return "?" + tyname(t[1])
     if t[0] == "enum":
         return t[1]
+    if t[0] == "eu":
+        return "%s!%s" % (tyname(t[1]), tyname(t[2]))
     if t[0] == "ptr":
         return ("^mut " if t[1] else "^") + tyname(t[2])
     if t[0] == "slice":
@@ -63,6 +73,7 @@ class Gen:
         self.noprint = False      # helper functions are pure: they are called inside expressions
         self.has_try = False
         self.ptr_helpers = False
+        self.fn_ops = []          # names of the global (x: i32, y: i32) -> i32 functions
 
     def fresh(self, p="v"):
         self.n += 1
@@ -109,11 +120,23 @@ class Gen:
                 if qs and r.random() < 0.3:
                     return {"e": "fld", "x": {"e": "var", "n": r.choice(qs)[0], "ty": REC_Q}, "f": "p"}
             return {"e": "rec", "ty": t[1], "fs": [{"n": fn, "x": self.expr(ft, d + 1)} for fn, ft in t[2]]}
-        if t[0] in ("opt", "enum"):
+        if t[0] in ("opt", "enum", "eu"):
             cands = self.vars_of(lambda vt, m: vt == t)
             if cands and r.random() < 0.5:
                 return {"e": "var", "n": r.choice(cands)[0], "ty": t}
             return self.sum_lit(t, d)
+        if t == CHAR:
+            cands = self.vars_of(lambda vt, m: vt == CHAR)
+            k = r.random()
+            if cands and k < 0.5:
+                return {"e": "var", "n": r.choice(cands)[0], "ty": CHAR}
+            if k < 0.8 or d > 2:
+                return {"e": "int", "ty": {"w": 1, "s": False}, "b": [r.choice(b"azAZ09_ qx")], "char": True}
+            return {"e": "cast", "ty": {"w": 1, "s": False}, "x": self.expr(U8, d + 1), "tychar": True}
+        if t == FN2:
+            cands = [{"e": "var", "n": c[0], "ty": FN2} for c in self.vars_of(lambda vt, m: vt == FN2)]
+            cands += [{"e": "fnref", "f": f} for f in self.fn_ops]
+            return r.choice(cands)
         if t[0] == "bool":
             k = r.random()
             if d > 2 or k < 0.2:
@@ -125,6 +148,8 @@ class Gen:
                 it = r.choice(INTS)
                 return {"e": "bin", "op": r.choice(["lt", "le", "gt", "ge", "eq", "ne"]),
                         "l": self.expr(it, d + 1), "r": self.expr(it, d + 1)}
+            if k < 0.69:
+                return {"e": "bin", "op": r.choice(["eq", "ne"]), "l": self.expr(CHAR, d + 1), "r": self.expr(CHAR, d + 1)}
             if k < 0.85:
                 return {"e": "bin", "op": r.choice(["land", "lor"]), "l": self.expr(BOOL, d + 1), "r": self.expr(BOOL, d + 1)}
             if k < 0.93:
@@ -148,11 +173,18 @@ class Gen:
             return {"e": "bin", "op": r.choice(["shl", "shr"]), "l": self.expr(t, d + 1),
                     "r": {"e": "int", "ty": jty(t), "b": list(amt.to_bytes(t[1], "little"))}}
         if k < 0.7:
-            src = r.choice(INTS + [BOOL])
+            src = r.choice(INTS + [BOOL, CHAR]) if t == U8 else r.choice(INTS + [BOOL])
             if src != t:
                 return {"e": "cast", "ty": jty(t), "x": self.expr(src, d + 1)}
         if k < 0.75:
             return {"e": "un", "op": "neg" if t[2] else "bnot", "x": self.expr(t, d + 1)}
+        if k < 0.79 and t == I32 and self.fn_ops:
+            # a call through a function value: directly, or handed to apply2
+            fv = self.expr(FN2)
+            a, b = self.expr(I32, d + 1), self.expr(I32, d + 1)
+            if r.random() < 0.5:
+                return {"e": "callv", "x": fv, "args": [a, b]}
+            return {"e": "call", "f": "apply2", "args": [fv, a, b]}
         if k < 0.83:
             fs = [f for f in self.fns if f[2] == t]
             if fs:
@@ -176,6 +208,8 @@ class Gen:
         """[(variant number, payload type or None, type text of the variant)]"""
         if t[0] == "opt":
             return [(1, t[1], tyname(t[1])), (2, None, "nil")]
+        if t[0] == "eu":          # 1 = the success value, 2 = the error
+            return [(1, t[2], tyname(t[2])), (2, t[1], tyname(t[1]))]
         return [(k + 1, pt, "%s.%s" % (t[1], vn)) for k, (vn, pt) in enumerate(t[2])]
 
     def sum_lit(self, t, d=0):
@@ -207,13 +241,15 @@ class Gen:
             self.scopes.append({})
             body = []
             if vpt is not None:
-                if t[0] == "opt":
+                if t[0] in ("opt", "eu"):
                     self.declare(b, vpt, False)     # (an enum arm's argument has the variant's nominal type:
                                                     # generated expressions must not use it as a plain value)
                 if vpt[0] == "int":
                     # the argument of an enum arm has the variant's own (nominal) type: cast it
                     body.append({"s": "print", "ty": vpt, "x": {"e": "cast", "ty": jty(vpt), "x": {"e": "var", "n": b, "ty": vpt}}
                                  if t[0] == "enum" else {"e": "var", "n": b, "ty": vpt}})
+                elif vpt == BOOL:
+                    body.append({"s": "print", "ty": BOOL, "x": {"e": "var", "n": b, "ty": BOOL}})
                 else:
                     body.append({"s": "print", "ty": I32, "x": {"e": "fld", "x": {"e": "var", "n": b, "ty": vpt}, "f": "a"}})
             body.append({"s": "print", "ty": I32, "x": self.lit(I32)})
@@ -239,6 +275,17 @@ class Gen:
                        "x": {"e": "call", "f": "try_add", "args": [var, self.expr(I32)]}})
             self.declare(res, OPT_I32, False)
             ss.append({"s": "print", "ty": BOOL, "x": {"e": "isvar", "x": {"e": "var", "n": res, "ty": OPT_I32}, "k": 2, "sty": OPT_I32}})
+        if t == EU_BI and self.has_try:
+            res = self.fresh("s")
+            ss.append({"s": "let", "n": res, "ty": EU_BI, "mut": False,
+                       "x": {"e": "call", "f": "try_eu", "args": [var, self.expr(I32)]}})
+            self.declare(res, EU_BI, False)
+            rv = {"e": "var", "n": res, "ty": EU_BI}
+            ss.append({"s": "print", "ty": BOOL, "x": {"e": "isvar", "x": rv, "k": 2, "sty": EU_BI}})
+            # the propagated error is the original error value
+            ss.append({"s": "if", "c": {"e": "isvar", "x": rv, "k": 2, "sty": EU_BI},
+                       "t": {"e": "blk", "label": "", "ss": [{"s": "print", "ty": BOOL, "x": {"e": "unwrap", "x": rv, "k": 2, "sty": EU_BI}}], "tail": NONE},
+                       "f": {"e": "blk", "label": "", "ss": [{"s": "print", "ty": I32, "x": {"e": "unwrap", "x": rv, "k": 1, "sty": EU_BI}}], "tail": NONE}})
         return ss
 
     # ---------------------------------------------------------------- pointers
@@ -490,6 +537,35 @@ class Gen:
                     "tail": {"e": "variant", "k": 1, "sty": OPT_I32,
                              "x": {"e": "bin", "op": "add", "l": {"e": "var", "n": "v", "ty": I32}, "r": {"e": "var", "n": "d", "ty": I32}}}}}
 
+    def op_fn(self, name):
+        """a pure (x: i32, y: i32) -> i32"""
+        x, y = {"e": "var", "n": "x", "ty": I32}, {"e": "var", "n": "y", "ty": I32}
+        k = self.int_lit(I32, self.r.randrange(2, 50))
+        body = self.r.choice([
+            {"e": "bin", "op": "add", "l": x, "r": y},
+            {"e": "bin", "op": "sub", "l": {"e": "bin", "op": "mul", "l": x, "r": k}, "r": y},
+            {"e": "bin", "op": "and", "l": {"e": "bin", "op": "xor", "l": x, "r": y}, "r": k},
+            {"e": "ifx", "c": {"e": "bin", "op": "lt", "l": x, "r": y},
+             "t": {"e": "blk", "label": "", "ss": [], "tail": x}, "f": {"e": "blk", "label": "", "ss": [], "tail": {"e": "bin", "op": "sub", "l": y, "r": k}}}])
+        return {"name": name, "params": [{"n": "x", "ty": I32}, {"n": "y", "ty": I32}], "ret": I32,
+                "body": {"e": "blk", "label": "", "ss": [], "tail": body}}
+
+    def fn_value_fns(self):
+        fns = [self.op_fn("op_a"), self.op_fn("op_b")]
+        fns.append({"name": "apply2", "params": [{"n": "fn", "ty": FN2}, {"n": "a", "ty": I32}, {"n": "b", "ty": I32}], "ret": I32,
+                    "body": {"e": "blk", "label": "", "ss": [],
+                             "tail": {"e": "callv", "x": {"e": "var", "n": "fn"}, "args": [{"e": "var", "n": "a"}, {"e": "var", "n": "b"}]}}})
+        return fns
+
+    def try_eu_helper(self):
+        """try_eu :: (o: bool!i32, d: i32) -> bool!i32 { defer ..; v := o.try; v + d }"""
+        return {"name": "try_eu", "params": [{"n": "o", "ty": EU_BI}, {"n": "d", "ty": I32}], "ret": EU_BI,
+                "body": {"e": "blk", "label": "", "ss": [
+                    {"s": "defer", "x": {"s": "print", "ty": I32, "x": {"e": "var", "n": "d", "ty": I32}}},
+                    {"s": "let", "n": "v", "ty": I32, "mut": False, "x": {"e": "try", "x": {"e": "var", "n": "o", "ty": EU_BI}}}],
+                    "tail": {"e": "variant", "k": 1, "sty": EU_BI,
+                             "x": {"e": "bin", "op": "add", "l": {"e": "var", "n": "v", "ty": I32}, "r": {"e": "var", "n": "d", "ty": I32}}}}}
+
     def index_lit(self, k):
         return {"e": "int", "ty": {"w": 8, "s": False}, "b": list(k.to_bytes(8, "little")), "usize": True}
 
@@ -532,7 +608,15 @@ class Gen:
 
     def stmt_let(self):
         t = self.r.choice(INTS + [BOOL, ("arr", self.r.choice([2, 3, 4]), self.r.choice([I32, U8, I64])), REC_P, REC_Q,
-                                  ("arr", 2, REC_P)])
+                                  ("arr", 2, REC_P), CHAR] + ([FN2] if self.fn_ops else []))
+        if t == FN2 and self.r.random() < 0.4:
+            # a local lambda: n :: (x: i32, y: i32) -> i32 { .. };  (it cannot capture anything)
+            n = self.fresh("g")
+            fn = self.op_fn(self.fresh("lam"))
+            fn["local"] = True
+            self.local_fns.append(fn)
+            self.declare(n, FN2, False)
+            return {"s": "let", "n": n, "x": {"e": "fnref", "f": fn["name"], "inline": fn}, "ty": FN2, "mut": False, "lambda": True}
         x = self.expr(t)
         n = self.fresh()
         mut = self.r.random() < 0.7
@@ -560,7 +644,7 @@ class Gen:
     def stmt_print(self):
         if self.noprint:
             return self.stmt_let()
-        t = self.r.choice(INTS + [BOOL])
+        t = self.r.choice(INTS + [BOOL, CHAR])
         return {"s": "print", "x": self.expr(t), "ty": t}
 
     def block(self, n, label="", allow_jump=True):
@@ -742,8 +826,11 @@ class Gen:
             self.fns.append((name, ptys, ret))
         self.noprint = False
         fns.append(self.try_helper())
+        fns.append(self.try_eu_helper())
         self.has_try = True
-        fns += self.ptr_helper_fns() + self.slice_helper_fns()
+        fns += self.ptr_helper_fns() + self.slice_helper_fns() + self.fn_value_fns()
+        self.fn_ops = ["op_a", "op_b"]
+        self.local_fns = []
         self.ptr_helpers = True
         main = self.function("main", [], I32, self.size)
         if self.want_fault:
@@ -757,7 +844,7 @@ class Gen:
                                      "i": {"e": "var", "n": iv, "ty": ("int", 8, False)}}, "ty": I32},
                 {"s": "print", "x": self.lit(I32), "ty": I32}]
         fns.append(main)
-        return {"fns": fns}
+        return {"fns": fns + self.local_fns}
 
 
 # -------------------------------------------------------------------- rendering
@@ -765,7 +852,10 @@ OPS = {"add": "+", "sub": "-", "mul": "*", "and": "&", "or": "|", "xor": "~", "s
        "lt": "<", "le": "<=", "gt": ">", "ge": ">=", "eq": "==", "ne": "!=", "land": "&&", "lor": "||"}
 
 PRELUDE_TYPES = ("P :: struct { a: i32, b: u8 };\nQ :: struct { p: P, k: i64, f: bool };\n"
-                 "E :: enum { A: i32, B: u8, C, D: P };\n")
+                 "E :: enum { A: i32, B: u8, C, D: P };\n"
+                 # a value becomes an error union by implicit conversion (here: at a return)
+                 "eu_bi_ok :: (v: i32) -> bool!i32 { v }\neu_bi_err :: (e: bool) -> bool!i32 { e }\n"
+                 "eu_pl_ok :: (v: i64) -> P!i64 { v }\neu_pl_err :: (e: P) -> P!i64 { e }\n")
 
 
 class Render:
@@ -777,6 +867,15 @@ class Render:
 
     def expr(self, e):
         k = e["e"]
+        if k == "int" and e.get("char"):
+            return "'%s'" % chr(e["b"][0])
+        if k == "fnref":
+            if e.get("inline"):
+                f = e["inline"]
+                return self.fn_plain(f, ", ".join("%s: %s" % (p["n"], tyname(self.tup(p["ty"]))) for p in f["params"])).split(" :: ", 1)[1]
+            return e["f"]
+        if k == "callv":
+            return "%s(%s)" % (self.expr(e["x"]), ", ".join(self.expr(a) for a in e["args"]))
         if k == "int":
             v = int.from_bytes(bytes(e["b"]), "little")
             if e.get("plain"):
@@ -795,6 +894,8 @@ class Render:
         if k == "un":
             return "(%s%s)" % ({"neg": "-", "bnot": "~", "not": "!"}[e["op"]], self.expr(e["x"]))
         if k == "cast":
+            if e.get("tychar"):
+                return "char.(%s)" % self.expr(e["x"])
             return "%s.(%s)" % (e.get("tyv") or self.ty_of_jty(e["ty"]), self.expr(e["x"]))
         if k == "type":
             return e.get("text") or self.ty_of_jty(e["ty"])
@@ -823,6 +924,8 @@ class Render:
             t = self.tup(e["sty"])
             if t[0] == "opt":
                 return "%s.(%s)" % (tyname(t), self.expr(e["x"]) if e["k"] == 1 else "nil")
+            if t[0] == "eu":
+                return "eu_%s_%s(%s)" % ("bi" if t == EU_BI else "pl", "ok" if e["k"] == 1 else "err", self.expr(e["x"]))
             vn, pt = t[2][e["k"] - 1]
             return "%s.(%s.%s%s)" % (t[1], t[1], vn, ".(%s)" % self.expr(e["x"]) if pt is not None else "")
         if k in ("isvar", "unwrap"):
@@ -845,6 +948,8 @@ class Render:
         t = self.tup(t)
         if t[0] == "opt":
             return tyname(t[1]) if k == 1 else "nil"
+        if t[0] == "eu":
+            return tyname(t[2]) if k == 1 else tyname(t[1])
         return "%s.%s" % (t[1], t[2][k - 1][0])
 
     def place(self, l):
@@ -872,6 +977,8 @@ class Render:
 
     def stmt(self, s):
         k = s["s"]
+        if k == "let" and s.get("lambda"):
+            return ["%s :: %s;" % (s["n"], self.indent(self.expr(s["x"])))]
         if k == "let":
             t = tuple(s["ty"]) if isinstance(s["ty"], (list, tuple)) else s["ty"]
             tn = "usize" if s.get("usize") else (t if isinstance(t, str) else tyname(self.tup(t)))
@@ -883,7 +990,7 @@ class Render:
         if k == "print":
             self.t += 1
             t = self.tup(s["ty"])
-            w = 1 if t[0] == "bool" else t[1]
+            w = 1 if t[0] in ("bool", "char") else t[1]
             tn = "usize" if s.get("usize") else tyname(t)
             return ["{ t_%d : %s = %s; emit(^t_%d, %d); nl(); };" % (self.t, tn, self.indent(self.expr(s["x"])), self.t, w)]
         if k == "expr":
@@ -947,13 +1054,13 @@ class Render:
         return "%s :: (%s)%s %s" % (f["name"], ps, ret, self.block(f["body"], 1))
 
     def program(self, p):
-        return PRELUDE_TYPES + "\n".join(self.fn(f) for f in p["fns"]) + "\n"
+        return PRELUDE_TYPES + "\n".join(self.fn(f) for f in p["fns"] if not f.get("local")) + "\n"
 
 
 def strip(x):
     """the abstract syntax without the renderer's annotations (types of lets / prints etc.)"""
     if isinstance(x, dict):
-        return {k: strip(v) for k, v in x.items() if k not in ("ty", "mut", "flat", "elem", "usize", "ret", "kind", "text", "plain", "sty", "order", "auto", "m")
+        return {k: strip(v) for k, v in x.items() if k not in ("ty", "mut", "flat", "elem", "usize", "ret", "kind", "text", "plain", "sty", "order", "auto", "m", "char", "tychar", "inline", "lambda", "local")
                 or (k == "ty" and x.get("e") in ("int", "cast", "rec", "type"))}
     if isinstance(x, (list, tuple)):
         return [strip(v) for v in x]
